@@ -64,6 +64,10 @@ init_mb_mgr_avx512(IMB_MGR *state)
 {
         init_mb_mgr_avx512_internal(state, 1);
 
+        /* nothing was initialised (NULL manager or missing CPU flags): keep that error */
+        if (state == NULL || state->imb_errno != 0)
+                return;
+
         if (!self_test(state))
                 imb_set_errno(state, IMB_ERR_SELFTEST);
 }
